@@ -174,11 +174,12 @@ class CheckC12(core.Check):
                 e = by.get(str(lab), [None])[0]
                 if e is None or e.skipped:
                     continue
+                pat, role, hs, hrs, modstr, res, dh = key
                 if e.panic:
-                    r.foreign_dev("C10", "build panicked")
+                    # the build result is this property's own predicate: a panic is neither Ok nor the descriptive error
+                    r.viol("C12|panic|%s|%s" % ("+".join(sorted(kinds)) or "ok-expected", role), "build panicked (%s) for %s role=%s local=%s remote=%s mods=%r resolver=%s; expected %s" % (e.res[:120], pat, role, hs, hrs, modstr, res, sorted(kinds) or "Ok"))
                     continue
                 r.stats["builds_judged"] += 1
-                pat, role, hs, hrs, modstr, res, dh = key
                 what = "%s role=%s local=%s remote=%s mods=%r resolver=%s dh=%s" % (pat, role, hs, hrs, modstr, res, dh)
                 if not kinds:
                     if not e.ok:
